@@ -321,3 +321,35 @@ def obligations():
                       stubs={BR + 'read_header': '{ return nondet_bool(); }'}, harness=COMPAT_H % dict(drv=drv, dim=dim, topo=topo),
                       note='compatibility<%s>() for every header and reader state (read_header stubbed)' % drv))
     return obs
+
+# ---------------------------------------------------------------------------------------------------------------
+# C07: read_vertices_chunk. The geometry reader (a template per vector type, virtual call) is a contract stub whose
+# precondition is what GeometryReaderT<VecT>::read needs: the decoder still holds count * vertex_dim * element size
+# bytes (it reads that many without any check of its own) and the span lies inside the vertices of the mesh.
+VERT_H = '''
+void harness(void) {
+  struct IO_detail_BinaryFileReader r; struct IO_detail_GeometryReaderBase gr; r.geometry_reader_ = &gr;
+  __CPROVER_assume(r.state_ == 5 && r.n_verts_read_ <= r.file_header_.n_verts && r.file_header_.n_verts <= 2147483647UL);
+  __CPROVER_assume(r.file_header_.vertex_dim >= 1);
+  g_dim = r.file_header_.vertex_dim; g_nv = r.file_header_.n_verts; gr_calls = 0;      /* compatibility() has established vertex_dim == dimension of the mesh's points */
+  unsigned long n = nondet_ulong(); __CPROVER_assume(n <= 64);
+  struct IO_detail_Decoder d; d.data_.data = (unsigned char *)malloc(n ? n : 1); d.data_.size = n; d.data_.cap = n; d.cur_ = d.data_.data; d.end_ = d.data_.data + n;
+  IO_detail_BinaryFileReader__read_vertices_chunk(&r, &d);
+  __CPROVER_assert(r.state_ != 5 || ovm_exc != 0 || gr_calls == 1, "C18.read_vertices_chunk.an_accepted_chunk_is_handed_to_the_geometry_reader_once");
+}
+'''
+VERT_STUBS = {'OpenVolumeMesh::IO::detail::GeometryReaderBase::read': '''{
+  gr_calls++;
+  unsigned long esz = encoding == 1 ? 4 : (encoding == 2 ? 8 : 0);      /* encoding None: a topology-only file, nothing is read */
+  __CPROVER_assert((unsigned long)(_decoder->end_ - _decoder->cur_) >= (unsigned long)count * g_dim * esz, "C07.read_vertices_chunk.the_geometry_reader_is_called_only_when_the_chunk_holds_count_x_dimension_x_element_size_bytes (it reads them unchecked)");
+  __CPROVER_assert((unsigned long)first + (unsigned long)count <= g_nv, "C07.read_vertices_chunk.the_span_lies_inside_the_vertices_of_the_mesh");
+  _decoder->cur_ = _decoder->end_; }'''}
+VERT_PRE = 'unsigned long g_dim, g_nv; int gr_calls;\n'
+def _vert_cfg(cfg):
+    cfg['drop_fields'] = dict(cfg['drop_fields']); cfg['drop_fields'][BR[:-2]] = ['prop_codecs_', 'props_']
+_base5 = obligations
+def obligations():
+    obs = _base5()
+    obs.append(Ob(id='C07.read_vertices_chunk', props=['C07', 'C18'], quick_for=['C07'], tu='ovmb', cfg='ovmb', tier='B', roots=[BR + 'read_vertices_chunk'], stubs=VERT_STUBS, preamble=VERT_PRE, harness=VERT_H, cfg_edit=_vert_cfg,
+                  unwind=4, timeout=900, bounds=dict(chunk_bytes=64), note='read_vertices_chunk on any chunk of up to 64 bytes and any reader state; the geometry reader is a stub asserting its own (unchecked) needs'))
+    return obs
